@@ -107,6 +107,7 @@ struct VThread {
   int nwait;
   int cur_ev;        // index of the pending history event, -1 if none
   bool op_lockfree;
+  const char* lf_section; // harness-declared lock-free section outside any recorded operation (xmc::lf_begin)
   long solo_steps;   // steps of the current lock-free op since op start / last switch-in
   int alloc_tag;
   uint64_t plain_since;
@@ -489,7 +490,8 @@ static int next_choice(uint8_t kind, int arity, uint8_t cm) {
   if (arity > 255) finishf(V_ENGINE, "ENGINE", "choice arity %d too large", arity);
   Result* r = g.res;
   uint32_t idx = r->npoints;
-  if (idx >= MAXPOINTS) finishf(V_ENGINE, "ENGINE", "too many choice points");
+  // no registered run comes near this length (longest: 12 000 steps); an execution that does is one that does not terminate
+  if (idx >= MAXPOINTS) finishf(V_VIOLATION, "HANG", "more than %d choice points in one execution: it does not terminate (T%d in %s)", MAXPOINTS, g.current, opname_of_thread(&g.th[g.current]));
   int alt = 0;
   if (g.devpos < g.ndev && g.devs[g.devpos].idx == idx) {
     const Dev& d = g.devs[g.devpos++];
@@ -523,7 +525,7 @@ static const char* opname(int op) {
 static const char* opname_of_thread(VThread* t) {
   if (!t) return "(no thread)";
   if (t->state == TS_FINISHED) return "(thread exit)";
-  if (t->cur_ev < 0) return "(outside any operation)";
+  if (t->cur_ev < 0) return t->lf_section ? t->lf_section : "(outside any operation)";
   return opname(g_hist[t->cur_ev].op);
 }
 
@@ -607,7 +609,7 @@ static void horizon_check(VThread* me) {
     finishf(V_VIOLATION, "HANG", "step horizon of %ld scheduler steps exceeded (T%d in %s)", g_cfg.horizon, me->id,
             opname_of_thread(me));
   me->plain_since = 0;
-  if (me->cur_ev >= 0 && me->op_lockfree) {
+  if ((me->cur_ev >= 0 && me->op_lockfree) || me->lf_section) {
     if (++me->solo_steps > g.max_solo) g.max_solo = me->solo_steps;
     if (g_cfg.solo_limit && me->solo_steps > g_cfg.solo_limit)
       finishf(V_VIOLATION, "PROGRESS", "lock-free operation %s of T%d did not finish within %d solo steps", opname_of_thread(me),
@@ -684,7 +686,7 @@ static bool observe(VThread* me, void* pc, uintptr_t addr, uint64_t val) {
 static void after_observation(VThread* me, void* pc, uintptr_t addr, uint64_t val) {
   if (!observe(me, pc, addr, val)) return;
   // spinning
-  if (me->cur_ev >= 0 && me->op_lockfree) {
+  if ((me->cur_ev >= 0 && me->op_lockfree) || me->lf_section) {
     // a lock-free operation must finish solo: do not yield, the solo step counter decides (C16)
     return;
   }
@@ -1577,6 +1579,20 @@ void op_end(long r0, long r1) {
 // `for (k...) contains(k)` on an empty container repeats the same loads from the same call site without any write in
 // between and was taken for a busy-wait loop: false LIVELOCK in the hash map sweep).  A wait inside one library call
 // is still found: nothing resets the detector there.
+void lf_begin(const char* what) {
+  VThread* me = tl_self;
+  if (!g.in_child || !me) return;
+  me->lf_section = what;
+  me->solo_steps = 0;
+  me->nseen = 0;
+}
+void lf_end() {
+  VThread* me = tl_self;
+  if (!g.in_child || !me) return;
+  me->lf_section = nullptr;
+  me->nseen = 0;
+  g.livelock_rounds = 0;
+}
 void progress() {
   VThread* me = tl_self;
   if (!g.in_child || !me) return;
